@@ -1,8 +1,9 @@
 (* Model of array addressing in never-lang/never (definitions only, executable).
 
    Mirrors, statement by statement:
-     back/object.c   object_arr_dim_mult, object_arr_dim_addr
+     back/object.c   object_arr_dim_mult, object_arr_dim_fits, object_arr_dim_addr
      back/vmexec.c   vm_execute_array_deref_univ  (ARRAY_DEREF / ARRAYREF_DEREF)
+                     vm_execute_mk_array_num      (MK_ARRAY_*: extents -> array, or an exception)
 
    C types: `unsigned int` everywhere in object_arr_dim {elems, mult}; the handler pops the
    indices as `int`, refuses e < 0, then stores them into an unsigned field.  Unsigned
@@ -48,6 +49,19 @@ Fixpoint mults (e : Z) (exts : list Z) : dimv :=
 (* returns (dv with multipliers filled in, *elems) *)
 Definition dim_mult (exts : list Z) : dimv * Z :=
   let e := prod_wrap 1 exts in (mults e exts, e).
+
+(* ---- object_arr_dim_fits (fix 1f9996a) ---------------------------------------------------
+     unsigned long long e = 1;
+     for d: { e *= dv[d].elems; if (e > 0xFFFFFFFFULL) return 0; }   return 1;
+   e <= 2^32 - 1 before each multiplication and dv[d].elems < 2^32, so the 64-bit product is
+   the mathematical product, which is what the model writes. *)
+Fixpoint dim_fits_loop (e : Z) (exts : list Z) : bool :=
+  match exts with
+  | [] => true
+  | n :: t => let e' := e * n in if UINT_MAX <? e' then false else dim_fits_loop e' t
+  end.
+
+Definition dim_fits (exts : list Z) : bool := dim_fits_loop 1 exts.
 
 (* ---- object_arr_dim_addr ---------------------------------------------------------------
      for (m = 0; m < dims; m++) {
@@ -97,3 +111,27 @@ Definition array_deref (arr : option dimv) (idx : list Z) : result Z :=
    multipliers and element count computed by object_arr_dim_mult *)
 Definition mk_arr (exts : list Z) : dimv := fst (dim_mult exts).
 Definition arr_elems (exts : list Z) : Z := snd (dim_mult exts).
+
+(* ---- vm_execute_mk_array_num (MK_ARRAY_INT .. MK_ARRAY_FUNC) -------------------------------
+     for d: e = pop int; `if (e <= 0)` -> "array index d out of bounds", INDEX_OOB;
+            dv[d].elems = e (int -> unsigned)
+     `if (!object_arr_dim_fits(dims, dv))` -> "improper array size", WRONG_ARRAY_SIZE   (fix 1f9996a)
+     array = gc_alloc_arr(dims, dv)  (object_new_arr: object_arr_dim_mult, value[] of `elems` cells)
+   exts in pop order (dv[0] first).  Ok (dv, elems): the dimension vector and the number of
+   cells of value[] of the array that is pushed. *)
+Fixpoint pop_extents (d : Z) (exts : list Z) : Z + list Z :=
+  match exts with
+  | [] => inr []
+  | e :: t =>
+      if e <=? 0 then inl d
+      else match pop_extents (d + 1) t with
+           | inl d' => inl d'
+           | inr l => inr (u32 e :: l)
+           end
+  end.
+
+Definition mk_array (exts : list Z) : result (dimv * Z) :=
+  match pop_extents 0 exts with
+  | inl d => Exc (IndexOob d)
+  | inr ns => if negb (dim_fits ns) then Exc WrongArraySize else Ok (dim_mult ns)
+  end.
